@@ -80,16 +80,16 @@ THEOREMS = [
     # the pair theorem on the object with its cache; the crystal-family constructors (regenerated, refusals, rebuild, right angles)
     'C01.gen_family_ctors_eq_model', 'C01.gen_glue_pins', 'C01.define_eq_setOp', 'C01.obj_rebuild_any_pair',
     'C01.ctor_refuses_iff', 'C01.ctor_rebuild_any', 'C01.define_right_angles',
+    # read-back of what was given for every parameter set, uniqueness of the definition, angles in degrees vs the unit of length
+    'C01.raw_readback', 'C01.raw_definition_unique', 'C01.lenOf_scale', 'C01.angleDeg_scale',
 ]
 PARTIAL = {
-    'angles_in_degrees': 'read-back of lengths and angles is proved in squared / cosine form over every ordered field '
-                         '(abc_gram, abc_rebuild_normal, abc_rebuild_rotation; the cosine computed by tools.vect_angle is translated '
-                         'and proved to be the cosine of the angle, within [-1, 1] and independent of the unit: src_vect_angle, '
-                         'angleCos_spec, angleCos_sq_le_one, angleCos_scale); the wrappers sqrt, cos(angle*pi/180) and '
-                         '180*arccos(.)/pi are float library calls: they are parameters of the model (hypotheses '
-                         'ly*ly = …, lz*lz = …, b*c*ca = bvect·cvect …) and are compared numerically in the correspondence',
-    'rounding': 'theorems are exact (field) statements; the "up to a stated relative rounding bound" part of the property '
-                'is checked by the correspondence/search tolerances, not proved',
+    'rounding': 'theorems are exact (field / real-number) statements: lengths, angles IN DEGREES and both square roots are now inside the '
+                'model through the record Trig (sqrt, cos, arccos, pi) whose specification Trig.Spec is proved for the real functions '
+                '(realTrig_spec), so abc_readback_degrees / rebuild_any_pair / rebuild_turned_cell hold over the reals with nothing assumed; '
+                'that the float routines of numpy (and every float +, *, /) are within the stated relative bound of those real functions - '
+                'the "up to a stated relative rounding bound" part of the property - is checked by the correspondence / search '
+                'tolerances, not proved',
 }
 RULE = ('scenarios = op sequences on one Box object: construct via vects | avect,bvect,cvect | lx.. | xlo.. | a,b,c,angles '
         '| family classmethods, each through Box(**kw), set(**kw), set_*() or the attribute setters; then get / lammps / recip '
@@ -118,7 +118,14 @@ RULE = ('scenarios = op sequences on one Box object: construct via vects | avect
         'definition (random permutation in half of all generated definitions, written literally or as a dictionary built in that order; '
         'every family x optional subset x all permutations up to 4 keywords, random ones beyond, x Box() / set() / set_*()); cells with one of '
         'alpha, beta, gamma 0.004 .. 2 degrees off 0 or 180 on either side, through every parameter set (set_abc, one huge LAMMPS tilt, turned '
-        'vectors). distinct = distinct canonical driver '
+        'vectors). Extension round: arrays of every numpy shape in EXT_SHAPES (0-d .. 4-d, empty, trailing dimension 0 / 1 / 2 / 3 / 4) as array, '
+        'nested list and integer array through both conversions, inside and outside (result shape or error class against convShape / '
+        'insideShape); 1 .. 12 points as (k,3), (2,k/2,3), (k/2,2,3), (1,k,1,3) arrays or nested lists against r2cAll / c2rAll / insideAll row by '
+        'row (relative coordinates multiples of 1/4 plus 1/8; on orthogonal grid cells also exactly on faces); the clamped cosine of the three '
+        'angle getters against cos(reported angle) on LAMMPS / turned / axis-permuted grid cells; the seven family constructors with equal '
+        'lattice constants in every slot (a = b, a = c, b = c), angles at 90 / 120 and equal angles, int and float arguments (own refusal, '
+        'else bitwise the cell of Box(a=.., .., gamma=..) of the keywords the model passes); System.scale / unscale against the box '
+        'conversions, bitwise, for arrays, lists, single points, tuples. distinct = distinct canonical driver '
         'line in its scenario context; non-trivial = cell differs from the unit cell or origin != 0')
 ASSUMPTIONS = [
     'a clause is evaluated only where the quantities of its own definition are finite normal doubles (lengths and their squares: '
@@ -127,9 +134,11 @@ ASSUMPTIONS = [
     'single-precision arguments of set_abc (numpy computes their cosines / products in float32) are outside the rounding bound checked',
     'IEEE double rounding of the implementation is bounded by 1e3 * 2^-52 * cond(vects) * scale on the generated inputs; '
     'on the dyadic grid (multiples of 1/8, |.| <= 8) construction, LAMMPS getters, volume and relative->Cartesian are exact',
-    'numpy cos / sqrt / arccos / linalg.inv / linalg.norm / dot / inner / cross compute the mathematical functions to '
-    'within that bound (cosines and the two square roots of set_abc enter the model as parameters supplied by the '
-    'harness; the driver reports the residuals of the hypotheses of abc_gram and the harness bounds them)',
+    'numpy cos / sqrt / arccos / pi / linalg.norm compute the real functions of Trig.Spec (proved for Real.sqrt, Real.cos, Real.arccos, '
+    'Real.pi: realTrig_spec) to within that bound; linalg.inv / dot / inner / cross are defined in the model (adjugate inverse proved '
+    'two-sided); in the driver (K = Rat) the cosines and the two square roots of set_abc are supplied by the harness as the floats the '
+    'implementation computed, the driver reports the residuals of the hypotheses of abc_gram and the harness bounds them; '
+    'np.linalg.norm(v) is the root of the sum of squares (T.sqrt of normSq in the generated vectAngleDeg)',
     'np.linalg.norm of a non-zero plane normal is positive (the λᵢ > 0 hypothesis of inside_iff_rel)',
     'left-handed and singular cells are outside the quantifier of the property; the model still mirrors the code there',
 ]
@@ -4084,6 +4093,79 @@ def _search_extreme_angles(ctx, rng, n):
         _run_cell(ctx, first, pts, rels, muts, light=(it % 2 == 1), check_base=not muts)
 
 
+# documented behaviour of the seven family constructors (docstrings / error messages), independent of the Lean model:
+# name -> (parameter letters, refusal predicate, keywords handed to Box(**kwargs))
+DOC_CTORS = {
+    'cubic': ('a', lambda a: False, lambda a: dict(a=a, b=a, c=a, alpha=90, beta=90, gamma=90)),
+    'hexagonal': ('ac', lambda a, c: a == c, lambda a, c: dict(a=a, b=a, c=c, alpha=90, beta=90, gamma=120)),
+    'tetragonal': ('ac', lambda a, c: a == c, lambda a, c: dict(a=a, b=a, c=c, alpha=90, beta=90, gamma=90)),
+    'trigonal': ('aA', lambda a, al: al >= 120, lambda a, al: dict(a=a, b=a, c=a, alpha=al, beta=al, gamma=al)),
+    'orthorhombic': ('abc', lambda a, b, c: a == b or a == c, lambda a, b, c: dict(a=a, b=b, c=c, alpha=90, beta=90, gamma=90)),
+    'monoclinic': ('abcB', lambda a, b, c, be: a == b or a == c or be <= 90,
+                   lambda a, b, c, be: dict(a=a, b=b, c=c, alpha=90, beta=be, gamma=90)),
+    'triclinic': ('abcABG', lambda a, b, c, al, be, ga: a == b or a == c or al == be or al == ga,
+                  lambda a, b, c, al, be, ga: dict(a=a, b=b, c=c, alpha=al, beta=be, gamma=ga)),
+}
+
+
+def _search_ctors(ctx, rng, n):
+    """Box.cubic .. Box.triclinic: refused exactly where documented; otherwise the cell of Box(a=.., .., gamma=..) with the documented
+    lengths and angles (bitwise), origin (0,0,0); that cell then goes through the getter clause (lengths and angles asked for)."""
+    import warnings
+    np = _np()
+    import atomman as am
+    for it in range(n):
+        name = rng.choice(sorted(DOC_CTORS))
+        letters, refuses, kws = DOC_CTORS[name]
+        g = rng.random() < 0.5
+        L = (lambda: _pos_dy(rng)) if g else (lambda: rng.uniform(0.5, 8.0))
+        lens = [L(), L(), L()]
+        r = rng.random()
+        if r < 0.25:
+            lens[rng.choice([1, 2])] = lens[0]
+        elif r < 0.4:
+            lens[2] = lens[1]
+        al = rng.choice([rng.uniform(50.0, 119.99), 119.5, 119.0 + rng.random(), 120.0, 120.5, 90.0, 60.0, rng.uniform(91.0, 119.0)])
+        be = rng.choice([rng.uniform(90.01, 119.0), 90.0, 89.5, 90.5, 100.25])
+        ga = rng.choice([rng.uniform(70.0, 110.0), al, 90.0, 80.0])
+        if name == 'triclinic':
+            al, be = rng.uniform(70.0, 110.0), rng.choice([rng.uniform(70.0, 110.0), al])
+        take = {'a': lens[0], 'b': lens[1], 'c': lens[2], 'A': al, 'B': be, 'G': ga}
+        args = [take[ch] for ch in letters]
+        call = f'Box.{name}({", ".join(repr(x) for x in args)})'
+        ctx.stats.case('ctor:' + name, (it, call), nontrivial=True, sample={'call': call})
+        rp = {'op': 'ctor', 'name': name, 'args': args}
+        try:
+            with warnings.catch_warnings():
+                warnings.simplefilter('ignore')
+                got = getattr(am.Box, name)(*args)
+        except Exception as e:  # noqa
+            got = e
+        kw = kws(*args)
+        try:
+            with warnings.catch_warnings():
+                warnings.simplefilter('ignore')
+                ref = am.Box(**kw)
+        except Exception as e:  # noqa
+            ref = e
+        if refuses(*args):
+            if not isinstance(got, ValueError):
+                ctx.violate(f'ctor:{name}:not-refused', f'{call} is documented to be refused (ValueError) but returned '
+                            f'{got.vects.tolist() if hasattr(got, "vects") else repr(got)}', rp)
+            continue
+        if isinstance(ref, Exception):
+            if not isinstance(got, Exception):
+                ctx.violate(f'ctor:{name}:accepted', f'{call} accepted although Box(**{kw}) raises {type(ref).__name__}: {ref}', rp)
+            continue
+        if isinstance(got, Exception):
+            ctx.violate(f'ctor:{name}:spurious-refusal', f'{call} raised {type(got).__name__}: {got} — not among the documented refusals, and '
+                        f'Box(**{kw}) is the cell {ref.vects.tolist()}', rp)
+            continue
+        if got.vects.tobytes() != ref.vects.tobytes() or got.origin.tobytes() != np.zeros(3).tobytes():
+            ctx.violate(f'ctor:{name}:cell', f'{call} has vects {got.vects.tolist()}, origin {got.origin.tolist()}; the documented definition '
+                        f'Box(**{kw}) has vects {ref.vects.tolist()}, origin [0, 0, 0]', rp)
+
+
 def search(ctx, broken):
     if ctx.disagreements:
         try:
@@ -4093,6 +4175,7 @@ def search(ctx, broken):
     rng = random.Random(ctx.seed * 7919 + 17)
     _search_redefinitions(ctx, rng, ctx.n(8, 160) * (2 if broken else 1))
     _search_wrappers(ctx, random.Random(ctx.seed * 7919 + 23), ctx.n(40, 800))
+    _search_ctors(ctx, random.Random(ctx.seed * 7919 + 24), ctx.n(150, 3000) * (2 if broken else 1))
     _search_types(ctx, random.Random(ctx.seed * 7919 + 18), ctx.n(1, 12))
     _search_keyword_orders(ctx, random.Random(ctx.seed * 7919 + 21), ctx.n(1, 12))
     _search_extreme_angles(ctx, random.Random(ctx.seed * 7919 + 22), ctx.n(96, 2400) * (2 if broken else 1))
@@ -4228,14 +4311,23 @@ MANIFEST = {
             'keyword sets (sound and complete), set_* parameter order as documented; the same cell in another unit of length: squares x s^2, '
             'volume x |s|^3, reciprocal vectors / s, cosines of the angles, relative coordinates, is_lammps_norm (s>0) and inside/outside '
             'unchanged; LAMMPS getters handed out iff upper triangle zero and all three diagonal entries positive, two LAMMPS-normal cells '
-            'with equal Gram matrix are equal, a LAMMPS cell turned by 180 degrees is right-handed with the same Gram matrix but not normal. Angle/length read-back is proved in cosine/squared form; the '
-            'cos/sqrt/arccos wrappers and float rounding are partial (assumed, compared numerically).',
+            'with equal Gram matrix are equal, a LAMMPS cell turned by 180 degrees is right-handed with the same Gram matrix but not normal. Extension round: lengths, angles in degrees and the '
+            'square roots inside the model (record Trig = sqrt, cos, arccos, pi; Trig.Spec proved for the real functions): every ordered pair '
+            '(X, Y) of the four parameter sets - a non-degenerate cell defined through X is read back through Y and rebuilt through Y as the '
+            'same vectors and origin (rebuild_any_pair, also on the object with its cache: obj_rebuild_any_pair); set_abc(a,b,c,alpha,beta,gamma) '
+            'reads back exactly a, b, c and the three angles in degrees (abc_readback_degrees); a right-handed cell not in LAMMPS orientation: '
+            'vectors rebuild it, LAMMPS getters refuse, lengths+angles give a properly rotated LAMMPS-oriented copy (rebuild_turned_cell); which '
+            'definitions / read-backs are refused (define_refuses_iff, readAs_refuses_iff, ctor_refuses_iff); arrays of points are converted / '
+            'tested row by row, shapes kept, trailing dimension 3 required (conv_rows, conv_rows_inverse, insideAll_iff_rel, convShape_ok_iff); the '
+            'setter clean-up statement, vect_angle down to degrees, set_abc with cos/pi/roots, the trailing-dimension checks, the seven family '
+            'constructors and System.scale/unscale are regenerated from the source and proved equal to the model. Only float rounding stays partial.',
     'note': 'Trusted: Lean kernel + propext/Classical.choice/Quot.sound; the hand-written model is tied to atomman.Box by a '
             'state-machine correspondence on exact rational inputs (incl. chains of one-ulp..1e-4 changes on warm objects; exact on the dyadic grid, 1e3*2^-52*cond*scale elsewhere, '
-            'points within that bound of a face exempt); numpy cos/sqrt/arccos/inv/norm assumed accurate; numpy shape plumbing '
-            'exercised by container/shape variants, not modelled.',
+            'points within that bound of a face exempt); numpy cos/sqrt/arccos/norm assumed to be the real functions up to rounding (their specification Trig.Spec is proved for the real functions); '
+            'shapes of point arrays modelled (convShape / insideShape, op shape), numpy broadcasting inside a row exercised, not modelled.',
     'technique': 'Lean 4 theorems over a hand-written polymorphic model + translator (class state/write protocol, the '
                  'one-line formulas, the set() keyword chain, set_* signatures/defaults, __init__ and the family constructors of '
-                 'Box.py regenerated as Lean and proved equal to the model on every run) + differential '
+                 'Box.py, the setter clean-up statement, vect_angle to degrees, set_abc with its library calls, shape checks, family-constructor guards, '
+                 'System.scale/unscale regenerated as Lean and proved equal to the model on every run) + differential '
                  'state-machine correspondence + exact-rational clause oracle on the real code',
 }
